@@ -1,13 +1,96 @@
 """C15 (decided on the sequential loop model; see p_seqprops.py, oracles.py, coq/props/C15.v)"""
+import os
+import subprocess
+import tempfile
+
+import oracles
 import p_seqprops
+import seqcheck
+import seqlib
+import vlib
 
 PROPS = ["C15"]
 PROFILES = [(3, {"share_fd_prob": 0.45, "err_ret_prob": 0.25, "lc_prob": 0.5, "stats_prob": 0.9, "epoll_prob": 0.9}), (1, {})]
 
 
+def run_impl_only(text):
+    d = tempfile.mkdtemp(prefix="cvcf")
+    sp = os.path.join(d, "s.scn")
+    open(sp, "w").write(text)
+    try:
+        p = subprocess.run([vlib.HARNESS, "seq", sp], stdout=subprocess.PIPE, stderr=subprocess.PIPE, text=True, timeout=120)
+        tr = seqlib.split_traces(p.stdout)
+        return list(tr.values())[0] if tr else []
+    finally:
+        try:
+            os.remove(sp)
+            os.rmdir(d)
+        except OSError:
+            pass
+
+
+def others_view(trace, h):
+    """what the rest of the loop shows: callbacks of every other source, and the result of every dispatch"""
+    out = []
+    for l in trace:
+        ws = l.split()
+        if ws[0] == "2" and ws[1] != str(h):
+            out.append(l)
+        elif ws[0] == "6":
+            out.append(l)
+        elif ws[0] == "10":
+            out.append(l)
+    return out
+
+
+def counterfactual(text, impl):
+    """`as if the call had not been made` / `without affecting any other source`, tested literally: a top-level enable, update,
+    disable or insert that returned an IO error is deleted from the scenario, the real code is run again, and every OTHER
+    source must behave identically (callbacks, dispatch results, panics). Sources with several sub-sources are left out:
+    their partial registration is the recorded finding F11."""
+    lines = text.strip("\n").split("\n")
+    cmd_idx = [i for i, l in enumerate(lines) if l.startswith(("C ", "D ", "T", "E"))]
+    spec = {}
+    for l in lines:
+        ws = l.split()
+        if len(ws) > 3 and ws[1] == "insert":
+            spec[ws[2]] = ws
+    k = -1
+    for l in impl:
+        if l == "17":
+            k += 1
+            continue
+        ws = l.split()
+        if ws[0] == "1" and ws[1] in ("1", "3", "4", "5") and len(ws) > 3 and ws[3] == "2" and 0 <= k < len(cmd_idx):
+            cl = lines[cmd_idx[k]].split()
+            if cl[0] != "C" or cl[1] not in ("insert", "disable", "enable", "update") or cl[2] != ws[2]:
+                continue
+            sp = spec.get(ws[2])
+            if sp is None or (sp[3] == "comp" and int(sp[5]) != 1) or sp[3] == "compt":
+                continue
+            variant = "\n".join(lines[:cmd_idx[k]] + lines[cmd_idx[k] + 1:]) + "\n"
+            alt = run_impl_only(variant)
+            a, b = others_view(impl, ws[2]), others_view(alt, ws[2])
+            if a != b:
+                n = next((i for i in range(max(len(a), len(b))) if i >= len(a) or i >= len(b) or a[i] != b[i]), 0)
+                return ["C15/failed-op-affects-others: `%s` returned an IO error, yet the other sources behave differently than without that call: "
+                        "with it `%s`, without it `%s` (difference %d of their callback/dispatch lines)"
+                        % (" ".join(cl[1:]), seqlib.pretty(a[n]) if n < len(a) else "<end>", seqlib.pretty(b[n]) if n < len(b) else "<end>", n)]
+            return []      # one counterfactual per scenario
+    return []
+
+
+def oracle(text, impl):
+    base = oracles.oracle_for(PROPS)
+    return base(text, impl) + counterfactual(text, impl)
+
+
 def main(tier, seed):
-    return p_seqprops.run("C15", tier, seed, PROFILES, props=PROPS)
+    return seqcheck.run_seq_check("C15", tier, seed, PROFILES, oracle, 1200, 30000, p_seqprops.ASSUME + [
+        "counterfactual stage: a top-level insert/enable/update/disable that returned an IO error is deleted and the real code re-run; every other "
+        "source must behave identically (single-sub-source sources only; partial registration of larger composites is finding F11)"],
+        known_classifier=p_seqprops.classify)
 
 
 def replay(path):
-    return p_seqprops.replay("C15", path, props=PROPS)
+    return seqcheck.replay("C15", path, oracle)
